@@ -25,7 +25,13 @@ ran = []
 rc2, o2 = run('cargo test --workspace --no-fail-fast --offline')
 ran.append({'step': 'existing suite with change: cargo test --workspace --no-fail-fast --offline', 'exit': rc2})
 demo_cmd = open(os.path.join(src, 'demo_cmd.txt')).read().strip()
-demo_cmd = ' && '.join(l.strip() for l in demo_cmd.split('\n') if l.strip() and not l.strip().startswith('#'))
+steps = []
+for l in demo_cmd.split('\n'):
+    for part in l.strip().split('&&'):
+        part = part.strip()
+        if not part or part.startswith('#'): continue
+        if part.startswith('cp ') or 'cargo test' in part: steps.append(part)      # git apply / cleanup / cd lines of the agent are not replayed: this tool applies and undoes the patch itself
+demo_cmd = ' && '.join(steps)
 rc1, o1 = run(demo_cmd); ran.append({'step': 'demo with change: ' + demo_cmd, 'exit': rc1})
 run('git checkout -- .')
 rc3, o3 = run(demo_cmd); ran.append({'step': 'demo without change: ' + demo_cmd, 'exit': rc3})
